@@ -308,6 +308,21 @@ type printer struct {
 	pending []*Ins
 	names   map[*Ins]string
 	prefix  string
+	wrap    bool // every function body runs inside a range statement with one iteration
+}
+
+// fnBody prints the body of a function. With wrap it is the body of a range
+// statement that iterates once, which does not change what the function does
+// (deferred calls run when the function returns, a return statement leaves the
+// function) but makes the VM execute it in the nested call of a range body.
+func (p *printer) fnBody(t []*Ins, indent int) {
+	if !p.wrap {
+		p.body(t, indent)
+		return
+	}
+	p.w(indent, "for range []int{0} {")
+	p.body(t, indent+1)
+	p.w(indent, "}")
 }
 
 func (p *printer) w(indent int, s string) {
@@ -357,11 +372,11 @@ func (p *printer) body(t []*Ins, indent int) {
 				continue
 			}
 			p.w(indent, kw+"func() {")
-			p.body(in.Body, indent+1)
+			p.fnBody(in.Body, indent+1)
 			p.w(indent, "}()")
 		case tCallback:
 			p.w(indent, p.pkg+"Call(func() {")
-			p.body(in.Body, indent+1)
+			p.fnBody(in.Body, indent+1)
 			p.w(indent, "})")
 		case tDeferNat:
 			p.w(indent, "defer "+natCall(p.pkg, in.K, in.N))
@@ -383,18 +398,24 @@ func (p *printer) flushNamed() {
 		in := p.pending[0]
 		p.pending = p.pending[1:]
 		p.w(0, "func "+p.names[in]+"() {")
-		p.body(in.Body, 1)
+		p.fnBody(in.Body, 1)
 		p.w(0, "}")
 	}
 }
 
 // programSource sets the Line fields of t as a side effect.
-func programSource(t []*Ins) string {
-	p := &printer{line: 1, pkg: "h.", named: true, names: map[*Ins]string{}}
+func programSource(t []*Ins) string { return programSourceW(t, false) }
+
+// programRangeSource: the same program with every function body inside a
+// range statement that iterates once.
+func programRangeSource(t []*Ins) string { return programSourceW(t, true) }
+
+func programSourceW(t []*Ins, wrap bool) string {
+	p := &printer{line: 1, pkg: "h.", named: true, names: map[*Ins]string{}, wrap: wrap}
 	p.w(0, "package main")
 	p.w(0, "import \"h\"")
 	p.w(0, "func main() {")
-	p.body(t, 1)
+	p.fnBody(t, 1)
 	p.w(0, "}")
 	p.flushNamed()
 	p.w(0, "func unused() { h.B(0) }")
@@ -418,10 +439,12 @@ func templateSource(wrapped []*Ins) string {
 }
 
 // gcFunction prints the tree as the Go function `name` of a batch file.
-func gcFunction(t []*Ins, name string) string {
-	p := &printer{line: 1, pkg: "h.", named: true, names: map[*Ins]string{}, prefix: name + "_"}
+func gcFunction(t []*Ins, name string) string { return gcFunctionW(t, name, false) }
+
+func gcFunctionW(t []*Ins, name string, wrap bool) string {
+	p := &printer{line: 1, pkg: "h.", named: true, names: map[*Ins]string{}, prefix: name + "_", wrap: wrap}
 	p.w(0, "func "+name+"() {")
-	p.body(t, 1)
+	p.fnBody(t, 1)
 	p.w(0, "}")
 	p.flushNamed()
 	return p.sb.String()
